@@ -991,6 +991,23 @@ func c05Run(c core.Case) core.Result {
 	if c.Fam == "unpost" {
 		return c05UnaryPostfix(c.N[0])
 	}
+	if c.Fam == "corner" {
+		// rare corners with results known by construction: names that only look like keywords, membership in hashes
+		// (by value, never by key), numeric strings compared with each other
+		cs := []struct{ src, want string }{
+			{"{{ None }}|{{ None + 1 }}|{{ True }}|{{ Null ~ 'x' }}|{{ nOnE }}|{{ False ? 'y' : 'n' }}", "5|6|yes|7x|9|y"},
+			{"{{ r(None, False) }}{{ {None: 'v'}['None'] }}{{ {'k': None}.k }}", "5v5"},
+			{"{{ none }}|{{ NONE }}|{{ true }}|{{ TRUE }}|{{ false }}|{{ FALSE }}|{{ null }}|{{ NULL }}", "||1|1||||"},
+			{"{{ 'k' in {'k': 1} ? 'y' : 'n' }}{{ 'k' not in {'k': 'x'} ? 'y' : 'n' }}{{ 2 in {2: 'two'} ? 'y' : 'n' }}{{ 'x' in {'k': 'x'} ? 'y' : 'n' }}{{ 'a' in h ? 'y' : 'n' }}{{ 'x' in h ? 'y' : 'n' }}{{ 'a' not in h ? 'y' : 'n' }}", "nynynyy"},
+			{"{{ '10' > '9' ? 'y' : 'n' }}{{ '100' <= '20' ? 'y' : 'n' }}{{ '7' >= '7.0' ? 'y' : 'n' }}{{ '10' > 9 ? 'y' : 'n' }}{{ 10 > '9' ? 'y' : 'n' }}{{ s10 > s9 ? 'y' : 'n' }}{{ s9 < s10 ? 'y' : 'n' }}", "ynyyyyy"},
+		}[c.N[0]]
+		var log []string
+		out, err, pan := tryExec(c05Env(&log), cs.src, map[string]stick.Value{"None": 5, "True": "yes", "Null": 7, "nOnE": 9, "False": "f", "h": map[string]stick.Value{"a": "x"}, "s10": "10", "s9": "9"})
+		if pan != "" || err != nil || out != cs.want {
+			return core.Violation("value", fmt.Sprintf("%s renders %q (%v %s), want %q", cs.src, out, err, pan, cs.want))
+		}
+		return core.Okay(true, out)
+	}
 	if c.Fam == "rangepair" {
 		// two ranges evaluated one after the other in the same process (and the same execution): same start and
 		// length, opposite directions; same bounds twice - each is what it is alone
@@ -1131,6 +1148,9 @@ func c05Levels(tier string) []core.Level {
 			}
 			for i := 0; i < c05UnaryPostfixN; i++ {
 				emit(core.Case{Fam: "unpost", N: []int{i}})
+			}
+			for k := 0; k < 5; k++ {
+				emit(core.Case{Fam: "corner", N: []int{k}})
 			}
 			for a := -3; a <= 7; a++ {
 				for d := 0; d <= 70; d++ {
